@@ -1,5 +1,6 @@
 import NriModel.Lemmas.ResultView
 import NriModel.Lemmas.ResultWalkRel
+import NriModel.Lemmas.ComposeViewChain
 /-!
 # C04 — each plugin sees the container exactly as the earlier plugins left it
 
@@ -18,9 +19,33 @@ state-free specification walk (`Nri.UpdateWalk.walk`, the value the corresponden
 (`C04_update`; hypothesis: no ignore-failure update names one item twice, implied by the
 driver's guard).
 
-Not proved (partial): the last sentence of the property — that the view also equals the
-overlay of the *combined reply so far* on the original — is the reply/view simulation of C03;
-it is evaluated on every generated chain by the C03/C04 correspondence runs.
+**The last sentence of the property** — "what a plugin is shown therefore always agrees with
+what the runtime would obtain by applying the result combined so far" — is `C04_view_agrees`:
+for every original container, every chain and every position `i`, the container shown to plugin
+`i` `ViewAgrees` with the OCI spec that `Generator.Adjust` (model `Nri.Generate`, property C13)
+makes of the original spec `toSpec c0` with the reply combined so far (`s.reply` of the state in
+which plugin `i` is called), whenever the generator accepts that reply — and it does whenever it
+accepts the earlier plugins' adjustments one after another.  Proof: the per-adjustment
+simulation `C04_overlay_simulates` (the NRI-level overlay of one adjustment on the view
+simulates `Generator.Adjust` with that adjustment on the spec; `C04_overlay_agrees` is its
+instance from a container's own spec), carried along the chain with the ledger's facts about
+each accepted adjustment (no key set twice; hugepage sizes new), and C03 (`compose_main` /
+`compose_converse`: generator on the combined reply ≈ generator on each adjustment in turn)
+applied to the PREFIX of the chain.
+
+`ViewAgrees` (`Lemmas/ComposeView.lean`) is equality for args, rlimits, hooks, OOM score,
+cgroups path, the device list (order included), every CPU field, the memory limit, hugepage
+limits and pids; `lookup`-equality for the Go maps annotations and unified; and two weakenings
+forced by representation (witnesses below): the environment as a finite map NAME ↦ value
+(`view_env_order_differs`: the view appends a re-set variable, the generator replaces it in
+place) and the mounts up to order (`view_mounts_order_differs`: the view appends, the generator
+sorts).  Outside the relation: memory fields other than the limit (the generator applies only
+the limit, to limit AND swap — `view_memory_other_fields_differ`), block-I/O / RDT class (name
+vs resolved parameters), CDI names, device cgroup rules and rootfs propagation (not part of the
+NRI container).  Guards beyond C03's `WellFormed`/`SpecWF`, each forced: no memory limit 0
+(`guard_view_limit_zero`, known finding C13:memory:limit-zero) and no hugepage size that the
+ORIGINAL container already has (`guard_view_hugepage_in_original`: the view appends a second
+entry, the generator overwrites the first).
 -/
 namespace Nri.Props.C04
 open Nri Nri.NApi Nri.Result Nri.Ledger Nri.Overlay Nri.UpdateWalk
@@ -214,5 +239,228 @@ example :
        (str "20-b", some { adjust := some { annotations := [(str "-k", [])], mounts := [{ destination := str "/m" }] } }),
        (str "30-c", some { })])[2]?.map fun s => (s.view.annotations, s.view.mounts.map (·.destination)))
     = some ([(str "orig", str "x")], [str "/m"]) := by decide
+
+
+/-! ## The view agrees with the result combined so far -/
+
+open Nri.Compose
+
+/-- **One adjustment: the NRI-level overlay simulates the generator.**  If the container `c`
+    a plugin was shown simulates the spec `x` (`ViewSim` = `ViewAgrees` + what keeps it going),
+    `a` is well-formed, requests no memory limit 0, sets no key twice and only hugepage sizes
+    `c` does not have (`StepFresh`; guaranteed by the ledger for every accepted adjustment),
+    then what the NEXT plugin is shown, `overlayContainer c a`, simulates
+    `Generator.Adjust x (toGen a)`. -/
+theorem C04_overlay_simulates {ext : Generate.Externals} {bad : List Str}
+    (hi : ext.injectCDI = some (Generate.recordingInjector bad) ∨ ext.injectCDI = none)
+    (c : Container) (x x' : Oci.Spec) (a : Adjustment)
+    (hsim : ViewSim c x) (hwf : WellFormed a) (hz : limitNonzero a = true) (hf : StepFresh c a)
+    (h : Generate.adjust ext x (toGen a) = .ok x') :
+    ViewSim (overlayContainer c a) x' :=
+  viewSim_step hi c x x' a hsim hwf hz hf h
+
+/-- the instance from a container's own spec: `toSpec`-then-generate agrees with
+    overlay-then-`toSpec`, in the sense of `ViewAgrees` -/
+theorem C04_overlay_agrees {ext : Generate.Externals} {bad : List Str}
+    (hi : ext.injectCDI = some (Generate.recordingInjector bad) ∨ ext.injectCDI = none)
+    (c : Container) (hc : SpecWF (toSpec c)) (a : Adjustment)
+    (hwf : WellFormed a) (hz : limitNonzero a = true) (hf : StepFresh c a) (x' : Oci.Spec)
+    (h : Generate.adjust ext (toSpec c) (toGen a) = .ok x') :
+    ViewAgrees (overlayContainer c a) x' :=
+  (viewSim_step hi c (toSpec c) x' a (viewSim_self c hc) hwf hz hf h).toViewAgrees
+
+/-- **C04, last sentence.** For every original container `c0` (with a well-formed spec), every
+    chain `rs` whose adjustments satisfy `ViewGuard c0`, every position `i`: let `s` be the
+    state in which plugin `i` is called — `s.view` what it is shown, `s.reply` the result
+    combined so far.  (1) Whatever spec `sC` the generator makes of the original spec with
+    `s.reply`, the view agrees with it; (2) the generator does accept `s.reply` whenever it
+    accepts the adjustments of plugins `0 … i−1` one after another. -/
+theorem C04_view_agrees {ext : Generate.Externals} {bad : List Str}
+    (hi : ext.injectCDI = some (Generate.recordingInjector bad) ∨ ext.injectCDI = none)
+    (c0 : Container) (rs : List (Plugin × Option Response)) (hs0 : SpecWF (toSpec c0))
+    (hg : ∀ a ∈ adjsOf rs, ViewGuard c0 a) (i : Nat) (s : State)
+    (h : (viewsAlong Quirks.fixed (initCreate c0) rs)[i]? = some s) :
+    (∀ sC, Generate.adjust ext (toSpec c0) (toGen s.reply) = .ok sC → ViewAgrees s.view sC) ∧
+    ((∃ sS, seqAdjust ext (toSpec c0) ((adjsOf (rs.take i)).map toGen) = .ok sS) →
+      ∃ sC, Generate.adjust ext (toSpec c0) (toGen s.reply) = .ok sC) :=
+  view_agrees hi c0 rs hs0 hg i s h
+
+/-- without external functions (no CDI injector, no class resolvers) the generator accepts
+    every combined reply of a guarded chain, so the agreement is unconditional -/
+theorem C04_view_agrees_plain (c0 : Container) (rs : List (Plugin × Option Response))
+    (hs0 : SpecWF (toSpec c0)) (hg : ∀ a ∈ adjsOf rs, ViewGuard c0 a) (i : Nat) (s : State)
+    (h : (viewsAlong Quirks.fixed (initCreate c0) rs)[i]? = some s) :
+    ∃ sC, Generate.adjust {} (toSpec c0) (toGen s.reply) = .ok sC ∧ ViewAgrees s.view sC := by
+  have hi : ({} : Generate.Externals).injectCDI = some (Generate.recordingInjector []) ∨
+      ({} : Generate.Externals).injectCDI = none := .inr rfl
+  have hrun := viewsAlong_run _ _ _ i s h
+  have hg' : ∀ a ∈ adjsOf (rs.take i), ViewGuard c0 a := fun a ha => hg a (mem_adjsOf_take rs i a ha)
+  obtain ⟨hm0, _, _⟩ := specWF_parts _ hs0
+  have hseq : ∃ sS, seqAdjust {} (toSpec c0) ((adjsOf (rs.take i)).map toGen) = .ok sS := by
+    have gen : ∀ (as : List Adjustment) (x : List Str) (b : Option Nat) (r : Option Str),
+        foldE (cdiG false []) x as = .ok x ∧ foldE (blockioG none) b as = .ok b ∧ foldE (rdtG none) r as = .ok r := by
+      intro as
+      induction as with
+      | nil => intro x b r; exact ⟨rfl, rfl, rfl⟩
+      | cons a rest ih =>
+        intro x b r
+        obtain ⟨i1, i2, i3⟩ := ih x b r
+        refine ⟨?_, ?_, ?_⟩
+        · simp only [foldE, cdiG, Generate.cdiAfter, Bool.not_false, Bool.true_or, if_true]; exact i1
+        · have : blockioG none b a = .ok b := by
+            unfold blockioG Generate.Resources.applyBlockIO; cases (toGen a).blockioClass <;> rfl
+          simp only [foldE, this]; exact i2
+        · have : rdtG none r a = .ok r := by
+            unfold rdtG Generate.Resources.applyRdt; cases (toGen a).rdtClass <;> rfl
+          simp only [foldE, this]; exact i3
+    obtain ⟨g1, g2, g3⟩ := gen (adjsOf (rs.take i)) (toSpec c0).cdi (toSpec c0).blockio (toSpec c0).rdt
+    exact seq_of_parts hi _ (fun a ha => wellFormed_noProp a (hg' a ha).wf) (toSpec c0) hm0 _ _ _ g1 g2 g3
+  obtain ⟨h1, h2⟩ := view_agrees hi c0 rs hs0 hg i s h
+  obtain ⟨sC, hC⟩ := h2 hseq
+  exact ⟨sC, hC, h1 sC hC⟩
+
+/-! ### non-vacuity: a five-entry chain (one plugin not subscribed) touching every family -/
+
+def vC0 : Container :=
+  { id := str "c0"
+    annotations := [(str "keep", str "1"), (str "drop", str "2")]
+    args := [str "sh"]
+    env := [str "PATH=/bin", str "OLD=1"]
+    mounts := [{ destination := str "/b" }, { destination := str "/a" }]
+    devices := [{ path := str "/dev/null", type := str "c", major := 1, minor := 3 }]
+    rlimits := [{ type := str "RLIMIT_NOFILE", hard := 10, soft := 5 }]
+    resources := { hugepages := [{ pageSize := str "2MB", limit := 1 }], unified := [(str "u0", str "x")] } }
+
+def vA0 : Adjustment :=
+  { annotations := [(str "k0", str "v0"), (str "-drop", [])]
+    mounts := [{ destination := str "/m0" }, { destination := str "-/a" }]
+    env := [{ key := str "FOO", value := str "1" }, { key := str "-OLD" }]
+    hooks := some { prestart := [{ path := str "/bin/h0" }] }
+    hasLinux := true
+    devices := [{ path := str "/dev/x", type := str "c", major := 1, minor := 2 }]
+    resources := some { memory := some { limit := some 100 }, cpu := some { shares := some 5 },
+                        hugepages := [{ pageSize := str "1GB", limit := 4 }],
+                        unified := [(str "u", str "1")], pids := some 7 }
+    cgroupsPath := str "/cg0"
+    oomScoreAdj := some 5
+    rlimits := [{ type := str "RLIMIT_CORE", hard := 2, soft := 1 }]
+    args := [str "a0"] }
+
+def vA2 : Adjustment :=
+  { annotations := [(str "-k0", []), (str "k0", str "v2"), (str "k2", str "w")]
+    mounts := [{ destination := str "-/m0" }, { destination := str "/m0", type := str "tmpfs" },
+               { destination := str "/c/d" }]
+    env := [{ key := str "-FOO" }, { key := str "FOO", value := str "2" }, { key := str "BAR", value := str "3" }]
+    hasLinux := true
+    devices := [{ path := str "-/dev/x" }, { path := str "/dev/x", type := str "c", major := 5, minor := 6 },
+                { path := str "-/dev/null" }]
+    resources := some { cpu := some { quota := some 9 } }
+    args := [[], str "b0", str "b1"] }
+
+def vA3 : Adjustment :=
+  { env := [{ key := str "PATH", value := str "/usr/bin" }],
+    rlimits := [{ type := str "RLIMIT_NPROC", hard := 4, soft := 3 }] }
+
+def vChain : List (Plugin × Option Response) :=
+  [(str "00-a", some { adjust := some vA0 }), (str "10-b", none), (str "20-c", some { adjust := some vA2 }),
+   (str "30-d", some { adjust := some vA3 }), (str "40-e", some {})]
+
+/-- the hypotheses of `C04_view_agrees` / `C04_view_agrees_plain` hold for the demo chain at
+    its last position (the fifth plugin is called: `viewsAlong` has an entry there) -/
+example :
+    specWF (toSpec vC0) = true ∧ (adjsOf vChain).all (viewGuard vC0) = true ∧
+    ((viewsAlong Quirks.fixed (initCreate vC0) vChain)[4]?).isSome = true := by decide
+
+/-- … and what it says there is not trivial: the fifth plugin is shown the environment in the
+    order [FOO, BAR, PATH] while the generator, given the reply combined so far, produces
+    [PATH, FOO, BAR] (same finite map); mounts, devices, args, hugepages, memory limit agree as
+    `ViewAgrees` says; the spec's memory swap (100) is not shown in the view (outside the
+    relation) -/
+example :
+    (((viewsAlong Quirks.fixed (initCreate vC0) vChain)[4]?).bind fun s =>
+      match Generate.adjust {} (toSpec vC0) (toGen s.reply) with
+      | .ok sC => some (s.view.env, sC.env, sC.mounts.map Oci.Mount.destination)
+      | .error _ => none) =
+    some ([str "FOO=2", str "BAR=3", str "PATH=/usr/bin"], [str "PATH=/usr/bin", str "FOO=2", str "BAR=3"],
+          [str "/b", str "/m0", str "/c/d"]) := by decide
+
+example :
+    (((viewsAlong Quirks.fixed (initCreate vC0) vChain)[4]?).bind fun s =>
+      match Generate.adjust {} (toSpec vC0) (toGen s.reply) with
+      | .ok sC => some (decide (sC.devices = s.view.devices.map devConv), decide (sC.args = s.view.args),
+          decide (sC.hugepages = s.view.resources.hugepages.map ociHugepage),
+          decide (sC.memory.limit = some 100 ∧ (s.view.resources.memory.getD {}).limit = some 100),
+          decide (sC.memory.swap = some 100 ∧ (s.view.resources.memory.getD {}).swap = none))
+      | .error _ => none) = some (true, true, true, true, true) := by decide
+
+/-- non-vacuity of `C04_overlay_simulates` / `C04_overlay_agrees`: the first adjustment of the
+    demo on the original container -/
+example :
+    specWF (toSpec vC0) = true ∧ wellFormed vA0 = true ∧ limitNonzero vA0 = true ∧
+    (match Generate.adjust {} (toSpec vC0) (toGen vA0) with | .ok _ => true | .error _ => false) = true := by
+  decide
+
+example : StepFresh vC0 vA0 := by
+  constructor <;> decide
+
+/-! ### witnesses: the weakenings and the extra guards are forced -/
+
+/-- the view after one adjustment and the spec the generator makes of the original spec with
+    that adjustment -/
+def viewAndSpec (c0 : Container) (a : Adjustment) : Option (Container × Oci.Spec) :=
+  match Generate.adjust {} (toSpec c0) (toGen a) with
+  | .ok s => some (overlayContainer c0 a, s)
+  | .error _ => none
+
+/-- environment: a re-set variable is appended in the view, replaced in place by the generator -/
+theorem view_env_order_differs :
+    (viewAndSpec { id := str "c", env := [str "A=1", str "B=2"] }
+        { env := [{ key := str "-A" }, { key := str "A", value := str "3" }] }).map
+      (fun (c, s) => (c.env, s.env)) = some ([str "B=2", str "A=3"], [str "A=3", str "B=2"]) := by decide
+
+/-- mounts: the view appends, the generator sorts -/
+theorem view_mounts_order_differs :
+    (viewAndSpec { id := str "c", mounts := [{ destination := str "/b" }] }
+        { mounts := [{ destination := str "/a" }] }).map
+      (fun (c, s) => (c.mounts.map Mount.destination, s.mounts.map Oci.Mount.destination)) =
+    some ([str "/b", str "/a"], [str "/a", str "/b"]) := by decide
+
+/-- memory: the container shows every field a plugin set; the generator applies only the
+    limit, and applies it to the swap limit as well -/
+theorem view_memory_other_fields_differ :
+    (viewAndSpec { id := str "c" }
+        { hasLinux := true, resources := some { memory := some { limit := some 100, reservation := some 5 } } }).map
+      (fun (c, s) => (decide ((c.resources.memory.getD {}).limit = some 100 ∧ s.memory.limit = some 100),
+                      decide ((c.resources.memory.getD {}).swap = none ∧ s.memory.swap = some 100),
+                      decide ((c.resources.memory.getD {}).reservation = some 5 ∧ s.memory.reservation = none))) =
+    some (true, true, true) := by decide
+
+/-- guard `limitNonzero` (known finding C13:memory:limit-zero): a requested limit of 0 is shown
+    to the next plugin but never applied by the generator -/
+theorem guard_view_limit_zero :
+    (viewAndSpec { id := str "c", resources := { memory := some { limit := some 7 } } }
+        { hasLinux := true, resources := some { memory := some { limit := some 0 } } }).map
+      (fun (c, s) => ((c.resources.memory.getD {}).limit, s.memory.limit)) = some (some 0, some 7) := by decide
+
+/-- guard `hugeFresh`: a page size the original already has — the view lists both entries, the
+    generator overwrites the first in place -/
+theorem guard_view_hugepage_in_original :
+    (viewAndSpec { id := str "c", resources := { hugepages := [{ pageSize := str "2MB", limit := 1 }] } }
+        { hasLinux := true, resources := some { hugepages := [{ pageSize := str "2MB", limit := 4 }] } }).map
+      (fun (c, s) => (c.resources.hugepages.map (fun h => (h.pageSize, h.limit)),
+                      s.hugepages.map (fun h => (h.pageSize, h.limit)))) =
+    some ([(str "2MB", 1), (str "2MB", 4)], [(str "2MB", 4)]) := by decide
+
+/-- `StepFresh` (what the ledger guarantees) is needed by the per-adjustment simulation: an
+    adjustment that sets one variable twice — which the collector rejects — is read differently
+    by the overlay (first entry) and the generator (last entry) -/
+theorem overlay_needs_distinct_sets :
+    (viewAndSpec { id := str "c" }
+        { env := [{ key := str "A", value := str "1" }, { key := str "A", value := str "2" }] }).map
+      (fun (c, s) => (Generate.Env.lookup c.env (str "A"), Generate.Env.lookup s.env (str "A"))) =
+    some (some (str "1"), some (str "2")) ∧
+    (match run Quirks.fixed (initCreate { id := str "c" })
+        [(str "00", some { adjust := some { env := [{ key := str "A", value := str "1" }, { key := str "A", value := str "2" }] } })] with
+     | .ok _ => false | .error _ => true) = true := by decide
 
 end Nri.Props.C04
